@@ -182,6 +182,9 @@ func run(c vrt.Case) vrt.Obs {
 					res := w.session(vpipe.Plan{CutDir: d, CutAt: k, CutSilent: silent})
 					what := fmt.Sprintf("scenario %d, cut after %d of %d bytes in direction %d (writer %s)", p.Scenario, k, n[d], d, map[bool]string{false: "sees the failure", true: "does not notice: buffered link"}[silent])
 					b2fx.CheckReturned(&o, res, what)
+					if o.Poisoned {
+						return o // a spinning goroutine is left behind: the worker is retired
+					}
 					ev := w.lg.Events()
 					b2fx.CheckSafety(&o, sc, ev)
 					b2fx.CheckNilMeansDone(&o, res, w.a, w.b, ev, what)
@@ -226,6 +229,9 @@ func run(c vrt.Case) vrt.Obs {
 				o.Count("logical_deadline_timeouts", int64(res.Link.Timeouts[0]+res.Link.Timeouts[1]))
 				what := fmt.Sprintf("scenario %d, ProcessInbound #%d fails at station %s (link capacity %d)", p.Scenario, j, st.Name, capacity)
 				b2fx.CheckReturned(&o, res, what)
+				if o.Poisoned {
+					return o // a spinning goroutine is left behind: the worker is retired
+				}
 				b2fx.CheckSafety(&o, sc, w.lg.Events())
 				failed := 0
 				for _, e := range w.lg.Events() {
@@ -297,6 +303,9 @@ func run(c vrt.Case) vrt.Obs {
 				}
 				faults = append(faults, what)
 				b2fx.CheckReturned(&o, res, what)
+				if o.Poisoned {
+					return o // a spinning goroutine is left behind: the worker is retired
+				}
 				b2fx.CheckSafety(&o, sc, w.lg.Events())
 				o.Count("faulty_sessions_in_histories", 1)
 			}
